@@ -421,6 +421,8 @@ class ProdParser:
                     else:
                         yield token
                         yield next_
+                        # S was no operator prefix: back to normal mode
+                        break
 
             elif token[0] == self.types.COMMENT:
                 # pass COMMENT
